@@ -334,7 +334,7 @@ def run_shard(shard, tier, seed, rec):
     from hypothesis import strategies as st
 
     i = shard["i"]
-    n = {"quick": 5, "thorough": 60}[tier]
+    n = {"quick": 20, "thorough": 60}[tier]
     cls_name = "IH5Record" if i % 2 == 0 else "IH5MFRecord"
     allpos = tier == "thorough" and i < 4
     strat = st.builds(lambda h, r: dict(history=h, cls=cls_name, rseed=r),
